@@ -109,3 +109,10 @@ check("C04", "exploration", "runtime differential monitor: idr stream readers an
       "and JSON with any value at any level; with and without Release; end to end under a copy schema.",
       "antchfx/xpath over a harness-built DOM computes the whole-document selection; out-of-class xpaths never generated.",
       "DESIGN.md section 3 C04")
+
+check("C20", "exploration", "runtime isolation monitor: enumerating probe scripts + value-map oracle over sequential and concurrent call histories, Go race detector, end-to-end _node comparison",
+      "Held on every call (quick 4e5, thorough ~2e7) of sequential histories on recycled VMs and of G in {2,4,16,64} goroutines x GOMAXPROCS in {1,2,4,16} sharing the VM "
+      "pool and caches with zero race reports: probes see exactly their own arguments, values map to the expected JSON (incl. results whose export re-enters the VM), "
+      "NaN/Infinity/null/undefined/throw are errors, _node equals the live node's present content for record, descendant and ancestor.",
+      "Scripts are IIFEs without globals. _node's expected value is idr.JSONify2 of the live node at observation time.",
+      "DESIGN.md section 3 C20")
